@@ -484,7 +484,7 @@ func FuzzyMatchV2(caseSensitive bool, normalize bool, forward bool, input *util.
 			}
 		} else {
 			class = charClassOfNonAscii(char)
-			if !caseSensitive && class == charUpper {
+			if !caseSensitive {
 				char = unicode.To(unicode.LowerCase, char)
 			}
 			if normalize {
